@@ -25,6 +25,11 @@
 (*     here-document nodes the parser must build and the one-line          *)
 (*     printed form (bodies omitted by design)                             *)
 (*                                                                         *)
+(*     Shapes: post pre mid cat semi and pipe (see HeaderCmds).            *)
+(*     Placements: top top2 seq comment brace sub func for subst pipeL     *)
+(*     pipeR pipeNL andNL forin if while case bang never bredir fredir     *)
+(*     exec alias eval bare (see HeadLine / TailLines).                    *)
+(*                                                                         *)
 (* Where POSIX and the manual leave the outcome open the class of the      *)
 (* scenario is "unterm" / "unspec" (nothing is demanded beyond "no         *)
 (* panic"); scenarios whose text leaves the modelled fragment are "skip".  *)
@@ -376,6 +381,9 @@ HeadLine(h) ==
        [] h.place = "while" -> "while " \o H
        [] h.place = "bang" -> "! " \o H
        [] h.place = "never" -> "status 1 && " \o H
+       [] h.place = "alias" -> "h"
+       [] h.place = "eval" -> "eval '" \o H
+       [] h.place = "exec" -> "exec " \o OpText(op)
        [] h.place = "bredir" -> "{ rd a " \o F \o "; rd b " \o F \o "; } " \o OpText(op)
        [] h.place = "fredir" -> "f() { rd a " \o F \o "; } " \o OpText(op)
 TailLines(h) ==
@@ -391,16 +399,23 @@ TailLines(h) ==
     [] h.place = "if" -> <<"status 0", "then probe t; fi", "probe end">>
     [] h.place = "case" -> <<";; esac", "probe end">>
     [] h.place = "while" -> <<"do break; done", "probe end">>
+    [] h.place = "eval" -> <<"'", "probe end">>
+    [] h.place = "exec" -> <<"rd a " \o ToString(h.ops[1].fd), "probe end">>
     [] h.place = "fredir" -> <<"f", "x=wx", "f", "probe end">>
     [] OTHER -> <<"probe end">>
 
-Script(h, lines) == <<Prelude, HeadLine(h)>> \o lines \o TailLines(h)
+\* alias: the operator comes out of an alias substitution (the alias is defined on a line of its own)
+AliasDef(h) == "alias h=\"" \o HeaderText(h) \o "\""
+Script(h, lines) == <<Prelude>> \o (IF h.place = "alias" THEN <<AliasDef(h)>> ELSE <<>>)
+                    \o <<HeadLine(h)>> \o lines \o TailLines(h)
+NoneOf(s, C) == \A i \in 1..Len(s) : At(s, i) \notin C
 
 \* commands that carry a here-document operator, printed on one line
 Printed(h) ==
   LET op == h.ops[1]
       F == ToString(op.fd)
   IN CASE h.place = "bredir" -> <<"{ rd a " \o F \o "; rd b " \o F \o "; } " \o OpPrinted(op)>>
+       [] h.place = "exec" -> <<"exec " \o OpPrinted(op)>>
        [] h.place = "fredir" -> <<"{ rd a " \o F \o "; } " \o OpPrinted(op)>>
        [] h.place = "top2" -> HeaderCmds(h, TRUE) \o <<SecondDoc[1]>>
        [] OTHER -> HeaderCmds(h, TRUE)
@@ -412,7 +427,7 @@ OneG(ev) == << <<ev>> >>
 
 \* Expected behaviour of the scenario (header h, lines, final newline nl)
 Expect(h, lines, nl) ==
-  LET ops == IF h.place \in {"bredir", "fredir"} THEN <<h.ops[1]>> ELSE h.ops
+  LET ops == IF h.place \in {"bredir", "fredir", "exec"} THEN <<h.ops[1]>> ELSE h.ops
       rb == ReadAll(ops, lines)
       script == Script(h, lines)
       base == [script |-> script, nl |-> nl, class |-> "ok", groups |-> <<>>, out |-> "", docs |-> <<>>, printed |-> <<>>]
@@ -429,11 +444,16 @@ Expect(h, lines, nl) ==
       modelled == /\ \A v \in DOMAIN Vs : \A i \in DOMAIN ops : BodyOK(ops[i], B[i], Vs[v])
                   /\ \A v \in DOMAIN Vs : RestOK(rest, Vs[v])
                   /\ (h.place = "forin" => \A i \in DOMAIN rest : IsBlankLine(rest[i]))
+                  \* the alias value is written between double quotes, the eval operand between single quotes
+                  /\ (h.place = "alias" => NoneOf(HeaderText(h), {DQT, "$", BSL, BQT}))
+                  /\ (h.place = "eval" => NoneOf(HeaderText(h), {SQT}) /\ \A i \in DOMAIN lines : NoneOf(lines[i], {SQT}))
+                  \* `exec 0<<E` would replace the descriptor the shell may be reading the script from
+                  /\ (h.place = "exec" => ops[1].fd # 0)
       \* the delimiter line is the last line of the input and has no newline:
       \* XCU 2.7.4 asks for "a line containing only the delimiter and a <newline>"
       eofdelim == h.place = "bare" /\ ~nl /\ rest = <<>>
       R(V) == CmdLines(rest).ls
-      HR(V) == IF h.place \in {"bredir", "fredir"} THEN [groups |-> <<>>, out |-> ""] ELSE HeaderRes(h, B, V)
+      HR(V) == IF h.place \in {"bredir", "fredir", "exec"} THEN [groups |-> <<>>, out |-> ""] ELSE HeaderRes(h, B, V)
       Hg(V) == HR(V).groups
       Seq1(V) == Hg(V) \o RestGroups(R(V), V)
       C1(V) == Content(ops[1], B[1], V)
@@ -458,6 +478,8 @@ Expect(h, lines, nl) ==
           \* "If the redirection operator is never evaluated (because the command it is part of is
           \* not executed), the here-document shall be read without performing any expansions"
           [] h.place = "never" -> RestGroups(R(V0), V0) \o EndG
+          \* the descriptor stays open after `exec`; the content was fixed when exec ran
+          [] h.place = "exec" -> RestGroups(R(V0), V0) \o OneG(RdEv("a", F, C1(V0))) \o EndG
           [] h.place = "bredir" -> OneG(RdEv("a", F, C1(V0))) \o OneG(RdEv("b", F, "")) \o RestGroups(R(V0), V0) \o EndG
           [] h.place = "fredir" -> RestGroups(R(V0), V0) \o OneG(RdEv("a", F, C1(V0))) \o OneG(RdEv("a", F, C1(V1))) \o EndG
           [] OTHER -> Seq1(V0) \o EndG
